@@ -16,6 +16,7 @@ Max(T) == CHOOSE x \in T : \A y \in T : x >= y
 Min(T) == CHOOSE x \in T : \A y \in T : x <= y
 RECURSIVE SumSeq(_)
 SumSeq(s) == IF s = <<>> THEN 0 ELSE Head(s) + SumSeq(Tail(s))
+CeilDiv(a, b) == (a + b - 1) \div b
 RECURSIVE SeqsUpTo(_, _)
 SeqsUpTo(S, n) == IF n = 0 THEN {<<>>}
                   ELSE LET prev == SeqsUpTo(S, n - 1) IN prev \cup {Append(s, x) : s \in {y \in prev : Len(y) = n - 1}, x \in S}
@@ -61,6 +62,21 @@ RECURSIVE InsPeak(_, _)
 InsPeak(s, x) == IF Len(s) = 0 THEN <<x>> ELSE IF x[1] < s[1][1] THEN <<x>> \o s ELSE <<s[1]>> \o InsPeak(Tail(s), x)
 RECURSIVE InsAll(_, _)
 InsAll(s, ms) == IF Len(ms) = 0 THEN s ELSE InsAll(InsPeak(s, ms[1]), Tail(ms))
+\* the waveform of a merged peak (samples of width 1; a constituent <<t, e, area>> carries its whole area in its first sample, which
+\* is how the harness fills the constituents): the constituents' samples at their places, zero in the gaps between them - whatever
+\* else was merged in the same call - then stored in a buffer of NB samples: down-sampled by f = ceil(L / NB) into L div f sums of f
+MergeWf(peaks, a, b) == LET t0 == peaks[a + 1][1] L == peaks[b][2] - t0 IN
+                        [i \in 1..L |-> SumSeq([k \in 1..(b - a) |-> IF peaks[a + k][1] = t0 + i - 1 THEN peaks[a + k][3] ELSE 0])]
+MergeStored(peaks, a, b, nb) ==
+  LET wf == MergeWf(peaks, a, b)
+      L == Len(wf)
+      f == CeilDiv(L, nb)
+      len2 == IF f > 1 THEN L \div f ELSE L
+      data == [j \in 1..len2 |-> SumSeq(SubSeq(wf, (j - 1) * f + 1, j * f))]
+  \* endtime: what the stored peak covers (time + length * dt; the peak dtype has no endtime field of its own); lastend: the end of the
+  \* last constituent - the property's "spans first start to last end" is endtime = lastend, "integrates to its area" is lost = 0
+  IN [time |-> peaks[a + 1][1], endtime |-> peaks[a + 1][1] + len2 * f, lastend |-> peaks[b][2], area |-> SumSeq(wf), nhits |-> b - a, dt |-> f,
+      length |-> len2, data |-> data, lost |-> SumSeq(wf) - SumSeq(data)]
 \* the merged peaks and the members of orig that do not touch any of them, in time order
 ReplaceDef(orig, merged) == InsAll(SelectSeq(orig, LAMBDA p : ~\E k \in 1..Len(merged) : Touching(p, merged[k])), merged)
 
@@ -120,7 +136,6 @@ ToPE == <<1, 2>>
 InHit(r, k) == k >= 0 /\ k < Len(r) /\ r[k + 1] >= 1           \* sample k (0-based) of record r belongs to a hit
 WfSample(recs, ch, t) == IF InHit(recs[ch], t) THEN recs[ch][t + 1] * ToPE[ch] ELSE 0
 Wf(recs, pt, pl) == [k \in 1..pl |-> WfSample(recs, 1, pt + k - 1) + WfSample(recs, 2, pt + k - 1)]
-CeilDiv(a, b) == (a + b - 1) \div b
 SumWfDef(recs, pt, pl, nb) ==
   LET wf == Wf(recs, pt, pl)
       f == CeilDiv(pl, nb)
@@ -180,10 +195,20 @@ VARIABLE c
 HitSet == {<<t, l, ch, ar>> \in (0..G) \X (1..2) \X (0..1) \X (1..2) : TRUE}
 SortedHits == {hs \in SeqsUpTo(HitSet, NH) : \A i \in 1..(Len(hs) - 1) : hs[i][1] <= hs[i + 1][1]}
 PeakSet == {<<t, e, ar>> \in (0..G) \X (1..(G + 1)) \X (1..2) : t < e}
+\* merging several groups in one call: constituents fit the buffer of NB = 3 samples, groups are longer (down-sampled)
+ShortPeakSet == {<<t, e, ar>> \in (0..G) \X (1..(G + 1)) \X (1..2) : t < e /\ e - t <= 3}
+RECURSIVE ShortLists(_)     \* disjoint, time-ordered lists of exactly k short peaks (built peak by peak: the plain filter is too large for TLC)
+ShortLists(k) == IF k = 1 THEN {<<p>> : p \in ShortPeakSet}
+                 ELSE UNION {{Append(ps, p) : p \in {q \in ShortPeakSet : ps[Len(ps)][2] <= q[1]}} : ps \in ShortLists(k - 1)}
+DisjointShort == UNION {ShortLists(k) : k \in 3..NH}
+\* the ways to cut n peaks into consecutive groups of >= 2 (at most two groups), the rest unmerged: <<a1, b1, a2, b2>> (a2 = b2: one group)
+GroupPairs(n) == {w \in (0..n) \X (0..n) \X (0..n) \X (0..n) : w[1] + 2 <= w[2] /\ w[2] <= w[3] /\ (w[3] = w[4] \/ w[3] + 2 <= w[4])
+                                                                  /\ (w[3] = w[4] => w[3] = n)}
 DisjointPeaks == {ps \in SeqsUpTo(PeakSet, NH) : Len(ps) >= 1 /\ \A i \in 1..(Len(ps) - 1) : ps[i][2] <= ps[i + 1][1]}
 WaveSet == SeqsUpTo(0..3, NH) \ {<<>>}
 Init == \/ Kind = "findpeaks" /\ c \in SortedHits \ {<<>>}
         \/ Kind = "merge" /\ c \in DisjointPeaks
+        \/ Kind = "merge2" /\ c \in DisjointShort
         \/ Kind = "sma" /\ c \in WaveSet
         \/ Kind = "iof" /\ c \in {w \in WaveSet : SumSeq(w) > 0}
         \/ Kind = "split" /\ c \in {w \in WaveSet : Len(w) >= 2 /\ SumSeq(w) > 0}
@@ -201,6 +226,11 @@ Laws == CASE Kind = "findpeaks" -> \A k \in 1..Len(Params) : PeakLaws(c, Params[
                                  /\ SumSeq([k \in 1..Len(r) |-> r[k][3]]) = SumSeq([k \in 1..Len(c) |-> c[k][3]])   \* area conserved
                                  /\ \A k \in 1..(Len(r) - 1) : r[k][2] <= r[k + 1][1]                                 \* still disjoint, ordered
                                  /\ Len(r) = Len(c) - (w[2] - w[1]) + 1
+          [] Kind = "merge2" -> \A w \in GroupPairs(Len(c)) : \A g \in {<<w[1], w[2]>>, <<w[3], w[4]>>} : g[1] < g[2] =>
+                                  LET m == MergeStored(c, g[1], g[2], 3) IN
+                                  /\ m.area = SumSeq([k \in 1..(g[2] - g[1]) |-> c[g[1] + k][3]])        \* areas add
+                                  /\ m.lost >= 0 /\ m.length <= 3 /\ m.endtime <= m.lastend
+                                  /\ ((m.lastend - m.time) % m.dt = 0 => m.lost = 0 /\ m.endtime = m.lastend)   \* integrates to the area, spans to the last end
           [] Kind = "split" -> \A k \in 1..Len(SplitParams) : TilesParent(Len(c), LocalMinSplits(c, SplitParams[k][1], SplitParams[k][2]))
           [] Kind = "splitobs" -> ObsTiles(SplitObs[c])
           [] Kind = "hdr" -> \A k \in 1..Len(HDRFracs) : HDRLaws(c, HDRFracs[k][1], HDRFracs[k][2])
@@ -221,6 +251,10 @@ Out ==
     [] Kind = "sma" -> [w |-> c, sma |-> [k \in 0..3 |-> SMADef(c, k)]]
     [] Kind = "iof" -> [w |-> c, fracs |-> Fracs, idx |-> [k \in 1..Len(Fracs) |-> IndexOfFractionDef(c, Fracs[k][1], Fracs[k][2])]]
     [] Kind = "split" -> [w |-> c, params |-> SplitParams, cuts |-> [k \in 1..Len(SplitParams) |-> LocalMinSplits(c, SplitParams[k][1], SplitParams[k][2])]]
+    [] Kind = "merge2" -> LET gs == SetToSeq(GroupPairs(Len(c))) IN
+                          [peaks |-> c, groups |-> gs,
+                           out |-> [i \in 1..Len(gs) |-> <<MergeStored(c, gs[i][1], gs[i][2], 3)>> \o
+                                                          (IF gs[i][3] < gs[i][4] THEN <<MergeStored(c, gs[i][3], gs[i][4], 3)>> ELSE <<>>)]]
     [] Kind = "sumwf" -> LET ws == SetToSeq(PeakWindowsOf(c)) IN
                          [recs |-> c, windows |-> ws, nbs |-> <<2, 3, NH>>,
                           out |-> [i \in 1..Len(ws) |-> [j \in 1..3 |-> SumWfDef(c, ws[i][1], ws[i][2], <<2, 3, NH>>[j])]]]
